@@ -1,6 +1,6 @@
 (* Extraction of the executable SR machine, renderers and normalisation (C02/C03). *)
 From Coq Require Import Extraction ExtrOcamlBasic.
-From Utap Require Import SR OpTableRef ExprSyntax.
+From Utap Require Import SR OpTableRef ExprSyntax PrintImpl.
 From Utap.gen Require Import Gen_OpTable.
 Extraction Language OCaml.
-Extraction "model_c02.ml" parseG flatG flatR norm bop_of_idx bop_idx uop_of_idx uop_idx pop_of_idx pop_idx.
+Extraction "model_c02.ml" parseG flatG flatR norm pprint covered bop_of_idx bop_idx uop_of_idx uop_idx pop_of_idx pop_idx.
